@@ -40,6 +40,8 @@ struct AsyncTask {
 
 static void body(mvprog::PT& p) {
     for (size_t i = 0; i < p.ops.size(); i++) {
+        if (p.ops[i] == 'p') { int n = pmc_choose(3, PMC_PROG, 0, "pad yields"); for (int k = 0; k < n; k++) thread_yield(); continue; }
+        if (p.ops[i] == 'q') { if (pmc_choose(2, PMC_PROG, 0, "pad yield")) thread_yield(); continue; }
         char op = p.ops[i]; char b = p.ops[++i];
         Task* t = new Task; t->id = G->tasks.size(); t->body = b; G->tasks.push_back(t);
         if (op == 'c') {
@@ -62,7 +64,9 @@ void pmc_run(const char* config) {
     int nv = config[0] - '0'; char mc = config[1] | 0x20; bool joined = config[1] != mc;
     int mode = mc == 'n' ? -1 : mc == 't' ? 0 : 2; int ring = config[2] - '0';
     pthread_t joined_thread = 0;
-    st.prog.parse(config + 4);
+    pmc_window(1);     // generated programs are explorer choices
+    if (st.prog.parse_or_generate(config + 4, {"cn", "cy", "cz", "an", "ay", "az"})) st.log = st.prog.generated + " ";
+    pmc_window(0);
     st.nworkers = nv;
     pmc_window(0);
     mv_init(); mvp::use_fast_stacks(true);
@@ -116,6 +120,11 @@ static const PmcConfig CFG[] = {
     {"0T1:az",          3, {2,3}, {0,0}, {0,0}, {0,0}, "only worker is a joined vCPU; async sleeping task vs destruction"},
     {"0P1:ayaz",        3, {1,2}, {0,0}, {0,0}, {0,0}, "joined vCPU, pooled threads"},
     {"1T1:azaz",        3, {1,2}, {0,0}, {0,0}, {0,0}, "owned + joined worker"},
+    {"1t1:gen2x2",      3, {0,0}, {0,0}, {0,0}, {0,0}, "generated: 2 submitters x up to 2 tasks from {call,async} x {nop,yield,sleep}, every arrival order, ring of 1"},
+    {"1p2:gen3x1",      3, {0,0}, {0,0}, {0,0}, {0,0}, ""},
+    {"0T1:gen2x2",      3, {0,0}, {0,0}, {0,0}, {0,0}, "... only worker is a joined vCPU"},
+    {"2n1:gen2x2",      2, {0,0}, {0,0}, {0,0}, {0,0}, ""},
+    {"1t1:gen2x1",      2, {1,1}, {0,0}, {0,0}, {0,0}, "... one op each, one preemption"},
     {"1n1:ayan",        2, {1,2}, {0,0}, {0,0}, {0,0}, ""},
     {"2p2:cyaz,azcn",   2, {1,1}, {0,0}, {0,0}, {0,0}, ""},
 };
